@@ -879,6 +879,15 @@ func (x *Exec) execReturn(st *State, s *ast.ReturnStmt) {
 
 func (x *Exec) contractCall(st *State, fi *FuncInfo, args []*Term, call *ast.CallExpr) []*Term {
 	sig := fi.sig()
+	if x.used == nil {
+		x.used = map[string]bool{}
+	}
+	x.used[fi.Name()] = true
+	if x.top != nil && x.top.Contract.mentionsAtCall() && x.spec == 0 {
+		snap := st.clone()
+		snap.lastCall = nil
+		st.lastCall = snap
+	}
 	before := map[*types.Var]bool{}
 	for k := range st.vars {
 		before[k] = true
@@ -1439,6 +1448,16 @@ func (x *Exec) evalMarker(st *State, call *ast.CallExpr, name string) *Term {
 			x.unsupported(call, "iterstart() outside a progress clause of a for loop")
 		}
 		tmp := x.iterStart[len(x.iterStart)-1].clone()
+		x.spec++
+		defer func() { x.spec-- }()
+		return x.eval(tmp, call.Args[0])
+	case "__atcall":
+		// the value of e in the state in which the most recent call by contract
+		// on this path was made (its arguments already evaluated)
+		if st.lastCall == nil {
+			x.unsupported(call, "atcall() without a unique preceding call by contract on this path")
+		}
+		tmp := st.lastCall.clone()
 		x.spec++
 		defer func() { x.spec-- }()
 		return x.eval(tmp, call.Args[0])
